@@ -30,82 +30,86 @@ elab "cases_call " f:ident n:num : tactic => withMainContext do
 
 /-- Symbolic evaluation of a translated body. -/
 macro "code_eval" : tactic => `(tactic|
-  simp [execOp, prog, exec, start, kvFault, evalB, evalV, evalRs, evalR, evalE, Env.init, Env.setE, Env.setV, Env.setY,
+  simp [execOpW, errW, prog, exec, start, kvFault, evalB, evalV, evalRs, evalR, evalE, Env.init, Env.setE, Env.setV, Env.setY,
     Env.setB, finish, outErr, outHas, outGet, outCompute, EV.kind, EV.isNil, EV.is, encF, decF,
     Hive.Typed.get, Hive.Typed.has, Hive.Typed.set, Hive.Typed.delete])
 
-theorem code_delete (C : Codec V) (s : St V) (F : Faults) :
-    execOp prog C s .delete F = delete s F := by
+theorem code_delete (w : Bool) (C : Codec V) (s : St V) (F : Faults) :
+    execOpW w prog C s .delete F = delete s F := by
   obtain ⟨k1, k2, fd, fe⟩ := F
-  cases k1 <;> simp only [execOp, prog, code_Delete] <;> code_eval
+  cases w <;> cases k1 <;> simp only [execOpW, prog, code_Delete] <;> code_eval
 
-theorem code_set (C : Codec V) (s : St V) (v : V) (F : Faults) :
-    execOp prog C s (.set v) F = set C s v F := by
+theorem code_set (w : Bool) (C : Codec V) (s : St V) (v : V) (F : Faults) :
+    execOpW w prog C s (.set v) F = set C s v F := by
   obtain ⟨k1, k2, fd, fe⟩ := F
-  cases k1 <;> cases fe <;> simp only [execOp, prog, code_Set] <;> code_eval <;> cases C.enc v <;> code_eval
+  cases w <;> cases k1 <;> cases fe <;> simp only [execOpW, prog, code_Set] <;> code_eval <;> cases C.enc v <;> code_eval
 
-theorem code_has (C : Codec V) (s : St V) (F : Faults) :
-    execOp prog C s .has F = has s F := by
+theorem code_has (w : Bool) (C : Codec V) (s : St V) (F : Faults) :
+    execOpW w prog C s .has F = has s F := by
   obtain ⟨k1, k2, fd, fe⟩ := F
   obtain ⟨st, cv, ch⟩ := s
-  cases ch <;> cases k1 <;> simp only [execOp, prog, code_Has] <;> code_eval
+  cases w <;> cases ch <;> cases k1 <;> simp only [execOpW, prog, code_Has] <;> code_eval
 
-theorem code_get (C : Codec V) (s : St V) (F : Faults) :
-    execOp prog C s .get F = get C s F := by
+theorem code_get (w : Bool) (C : Codec V) (s : St V) (F : Faults) :
+    execOpW w prog C s .get F = get C s F := by
   obtain ⟨k1, k2, fd, fe⟩ := F
   obtain ⟨st, cv, ch⟩ := s
-  rcases ch with _ | _ | _ <;> cases cv <;> cases k1 <;> cases st <;> cases fd <;>
-    simp only [execOp, prog, code_Get] <;> code_eval <;> (rename_i b; cases C.dec b <;> code_eval)
+  cases w <;> rcases ch with _ | _ | _ <;> cases cv <;> cases k1 <;> cases st <;> cases fd <;>
+    simp only [execOpW, prog, code_Get] <;> code_eval <;> (rename_i b; cases C.dec b <;> code_eval)
 
 /-- The translated `cachedValue` is what the `cached` statement of the language does. -/
-theorem code_cachedValue_eq (C : Codec V) (f : V → Bool → FnRes V) (F : Faults) (m : M V) :
-    exec C f F prog.cachedValue m = .done m [.v (m.st.cv.getD (m.env.v 1)), .b m.st.cv.isSome] := by
+theorem code_cachedValue_eq (w : Bool) (C : Codec V) (f : V → Bool → FnRes V) (F : Faults) (m : M V) :
+    exec C f F w prog.cachedValue m = .done m [.v (m.st.cv.getD (m.env.v 1)), .b m.st.cv.isSome] := by
   obtain ⟨⟨st, cv, ch⟩, env, tr, nkv⟩ := m
   cases cv <;> simp [prog, code_cachedValue, exec, evalB, evalV, evalRs, evalR]
 
 macro "compute_eval" : tactic => `(tactic|
-  simp [compute, computeRead, computeWrite, needsRead, execOp, prog, exec, start, kvFault, evalB, evalV, evalRs, evalR, evalE, Env.init, Env.setE, Env.setV, Env.setY,
+  simp [compute, computeRead, computeWrite, needsRead, execOpW, errW, prog, exec, start, kvFault, evalB, evalV, evalRs, evalR, evalE, Env.init, Env.setE, Env.setV, Env.setY,
     Env.setB, finish, outCompute, EV.kind, EV.isNil, EV.is, encF, decF])
 
 macro "compute_eval'" : tactic => `(tactic|
-  simp [*, compute, computeRead, computeWrite, needsRead, execOp, prog, exec, start, kvFault, evalB, evalV, evalRs, evalR, evalE, Env.init, Env.setE, Env.setV, Env.setY,
+  simp [*, compute, computeRead, computeWrite, needsRead, execOpW, errW, prog, exec, start, kvFault, evalB, evalV, evalRs, evalR, evalE, Env.init, Env.setE, Env.setV, Env.setY,
     Env.setB, finish, outCompute, EV.kind, EV.isNil, EV.is, encF, decF])
 
-theorem code_compute (C : Codec V) (s : St V) (f : V → Bool → FnRes V) (F : Faults) :
-    execOp prog C s (.compute f) F = compute C s f F := by
+theorem code_compute (w : Bool) (C : Codec V) (s : St V) (f : V → Bool → FnRes V) (F : Faults) :
+    execOpW w prog C s (.compute f) F = compute C s f F := by
   obtain ⟨k1, k2, fd, fe⟩ := F
   obtain ⟨st, cv, ch⟩ := s
-  rcases ch with _ | _ | _ <;> cases cv <;> cases k1 <;> cases st <;>
-    simp only [execOp, prog, code_Compute] <;> compute_eval
+  cases w <;> rcases ch with _ | _ | _ <;> cases cv <;> cases k1 <;> cases st <;>
+    simp only [execOpW, prog, code_Compute] <;> compute_eval
   all_goals (try (cases_call Codec.dec 3 <;> cases fd <;> (try compute_eval)))
   all_goals (try (cases_call f 2 <;> (try compute_eval)))
   all_goals (try (cases_call Codec.enc 3 <;> cases fe <;> (try compute_eval)))
   all_goals (try (cases k2 <;> compute_eval))
 
-/-- Every operation of the translated code is the model's `step`. -/
-theorem execOp_eq_step (C : Codec V) (s : St V) (op : Op V) (F : Faults) :
-    execOp prog C s op F = step C s op F := by
+/-- Every operation of the translated code is the model's `step`, whether or not the store wraps its errors. -/
+theorem execOpW_eq_step (w : Bool) (C : Codec V) (s : St V) (op : Op V) (F : Faults) :
+    execOpW w prog C s op F = step C s op F := by
   cases op with
-  | get => exact code_get C s F
-  | has => exact code_has C s F
-  | set v => exact code_set C s v F
-  | delete => exact code_delete C s F
-  | compute f => exact code_compute C s f F
+  | get => exact code_get w C s F
+  | has => exact code_has w C s F
+  | set v => exact code_set w C s v F
+  | delete => exact code_delete w C s F
+  | compute f => exact code_compute w C s f F
   | reopen => rfl
 
-/-- Histories run by the translated code. -/
-def runCode (P : Prog) (C : Codec V) (s : St V) : List (Op V × Faults) → St V × List (Out V)
+theorem execOp_eq_step (C : Codec V) (s : St V) (op : Op V) (F : Faults) :
+    execOp prog C s op F = step C s op F := execOpW_eq_step false C s op F
+
+/-- Histories run by the translated code; `ws`: per operation, whether the store wraps its errors. -/
+def runCode (P : Prog) (C : Codec V) (s : St V) : List (Bool × Op V × Faults) → St V × List (Out V)
   | [] => (s, [])
-  | (op, F) :: rest =>
-    let r := execOp P C s op F
+  | (w, op, F) :: rest =>
+    let r := execOpW w P C s op F
     let (s', os) := runCode P C r.st rest
     (s', r.out :: os)
 
-theorem runCode_eq_run (C : Codec V) (s : St V) (h : List (Op V × Faults)) : runCode prog C s h = run C s h := by
+theorem runCode_eq_run (C : Codec V) (s : St V) (h : List (Bool × Op V × Faults)) :
+    runCode prog C s h = run C s (h.map (·.2)) := by
   induction h generalizing s with
   | nil => rfl
   | cons x rest ih =>
-    obtain ⟨op, F⟩ := x
-    simp only [runCode, run, execOp_eq_step, ih]
+    obtain ⟨w, op, F⟩ := x
+    simp only [runCode, run, List.map_cons, execOpW_eq_step, ih]
 
 end Hive.Typed.Code
